@@ -274,11 +274,29 @@ std::string run_case(MakeSender mk, bool prestop, const std::vector<script_ev>& 
 }
 
 using case_fn = std::string (*)(bool, const std::vector<script_ev>&);
+using traits_fn = std::string (*)();
 
-inline int main_loop(case_fn* cases, int ncases) {
+// compile-time sender traits and the run-time blocking() answer of a generated expression
+template <typename MakeSender>
+std::string traits_of(MakeSender mk) {
+  using S = decltype(mk());
+  auto s = mk();
+  char buf[160];
+  std::snprintf(buf, sizeof buf, "blocking=%d sends_done=%d affine=%d rt_blocking=%d",
+                (int)unifex::sender_traits<S>::blocking.value, (int)unifex::sender_traits<S>::sends_done,
+                (int)unifex::sender_traits<S>::is_always_scheduler_affine, (int)unifex::blocking(s).value);
+  return buf;
+}
+
+inline int main_loop(case_fn* cases, int ncases, traits_fn* traits = nullptr) {
   std::string line;
   while (std::getline(std::cin, line)) {
     std::istringstream is(line);
+    if (!line.empty() && line[0] == 'T') {
+      char t; int ti; is >> t >> ti;
+      std::cout << ((traits && ti >= 0 && ti < ncases) ? traits[ti]() : std::string("ERR")) << "\n";
+      continue;
+    }
     int idx, prestop; std::string bar;
     is >> idx >> prestop >> bar;
     auto script = parse_script(is);
